@@ -27,7 +27,7 @@ fn profile(tx: usize, long: bool) -> Profile {
         faults: true,
         partial_io: true,
         pend_first_pct: 30,
-        keep_session_pct: 100,
+        keep_session_pct: 88,
         auto_broker_pct: 0,
         w_pub: [4, 9, 7],
         w_sub: 2,
